@@ -34,6 +34,15 @@ func checkTrie(rp *reporter, idx int) {
 		return
 	}
 	impls := []*impl{legacy, t2}
+	if idx%2 == 0 {
+		t2p, err := openTrie2Persisted(c)
+		if err != nil {
+			rp.viol("trie2-reopened-from-database:trie-build-error", idx, err.Error(), map[string]any{"trie": c.String()})
+			return
+		}
+		impls = append(impls, t2p)
+		r.Count("tries_committed_and_reopened_from_the_node_database", 1)
+	}
 	for _, im := range impls {
 		if !im.root.Equal(&want) {
 			// C01's subject; without the true root nothing below can be judged
